@@ -167,7 +167,7 @@ PROPS = {
     "C15": {
         "module": "Sfv.Props.C15",
         "tables": ["tables_schema_arms"],
-        "suites": [ledger(600, 3000)],
+        "suites": [ledger(600, 3000), schemas(2, 8)],
         "oracle": ["C15"],
     },
     "C14": {
